@@ -18,6 +18,23 @@ func c09MakeLen(m *pbfModel, e ast.Expr, seen map[types.Object]bool) (int64, boo
 	if call, ok := e.(*ast.CallExpr); ok && builtinName(m.info, call) == "make" && len(call.Args) == 2 {
 		return constInt(m.info, call.Args[1])
 	}
+	// an array (or a pointer to one): the length is part of the type (`var size [4]byte` ... `size[:]`)
+	if t := m.info.TypeOf(e); t != nil {
+		if pt, ok := t.Underlying().(*types.Pointer); ok {
+			t = pt.Elem()
+		}
+		if at, ok := t.Underlying().(*types.Array); ok {
+			return at.Len(), true
+		}
+	}
+	if se, ok := e.(*ast.SliceExpr); ok && se.High == nil && se.Max == nil {
+		if se.Low == nil {
+			return c09MakeLen(m, se.X, seen) // `b[:]`: the whole buffer
+		}
+		if lo, isC := constInt(m.info, se.Low); isC && lo == 0 {
+			return c09MakeLen(m, se.X, seen)
+		}
+	}
 	if f := fieldOf(m.info, e); f != nil {
 		// a buffer kept in a struct field: every initialisation of the field in the package is a make of that length
 		return c09FieldMakeLen(m, f)
@@ -57,8 +74,49 @@ func c09B1(r *core.R) {
 	}
 	info := m.info
 	br := f.blockReader
-	bru := m.byDecl[br.Obj]
+	_ = m.byDecl[br.Obj]
 	c09ReaderConsumption(r, m)
+	// the increment
+	c := "increment@block-reader " + f.counter.Name()
+	var inc *ast.AssignStmt
+	for _, as := range f.incs {
+		if as.Tok == token.ADD_ASSIGN && m.funcAt(as.Pos()) == br && len(as.Lhs) == 1 {
+			inc = as
+		}
+	}
+	if inc == nil || len(f.incs) != 1 {
+		r.Bad(c, br.Decl.Pos(), "the byte counter %s is written at %d sites; exactly one `+=` in the block reader is required", f.counter.Name(), len(f.incs))
+		return
+	}
+	// the function in which the bytes of a block are added up: the block reader itself, or the helper whose result
+	// the block reader adds to the counter (`n` of `hdr, blob, n, err := readBlock(..)`; `dec.bytesRead += n`)
+	acct := br
+	sumExpr := inc.Rhs[0]
+	if o, ok := objOf(info, stripConv(info, sumExpr)).(*types.Var); ok && !o.IsField() {
+		if defs := m.defsOf(o); len(defs) == 1 && defs[0].kind == "result" {
+			if call, ok := ast.Unparen(defs[0].e).(*ast.CallExpr); ok {
+				if fn := callee(info, call); fn != nil && m.funcs[fn] != nil {
+					var sums []ast.Expr
+					for _, ret := range m.returnsOf(m.funcs[fn], defs[0].idx) {
+						if ret == nil {
+							sums = nil
+							break
+						}
+						if _, isConst := constInt(info, ret); !isConst {
+							sums = append(sums, ret) // (the constant returns are the failure returns)
+						}
+					}
+					if len(sums) == 1 {
+						acct, sumExpr = m.funcs[fn], sums[0]
+					}
+				}
+			}
+		}
+	}
+	if fn, e := c09SumInResultStruct(m, sumExpr); fn != nil {
+		acct, sumExpr = fn, e // `b, err := readBlock(..)`; `dec.bytesRead += b.size`
+	}
+	acctU := m.byDecl[acct.Obj]
 	// the reads: io.ReadFull calls in the block reader and the helpers it calls; the buffer expressed at the block reader's level
 	type read struct {
 		call *ast.CallExpr
@@ -66,12 +124,15 @@ func c09B1(r *core.R) {
 		pos  token.Pos // position in the block reader's body
 	}
 	var reads []read
-	m.deepWalkOpt(bru, true, func(s *pbfSite, n ast.Node) bool {
+	m.deepWalkOpt(acctU, true, func(s *pbfSite, n ast.Node) bool {
 		call, ok := n.(*ast.CallExpr)
-		if !ok || !isPkgFunc(callee(info, call), "io", "ReadFull") || len(call.Args) != 2 {
+		if !ok {
 			return true
 		}
-		buf := call.Args[1]
+		buf, isFull := pbfFullRead(info, call)
+		if !isFull {
+			return true
+		}
 		for i := len(s.frames) - 1; i > 0 && buf != nil; i-- {
 			link, _ := s.frames[i-1].link.(*ast.CallExpr)
 			po := objOf(info, buf)
@@ -94,6 +155,13 @@ func c09B1(r *core.R) {
 	var wantConst int64
 	var wantTerms []ast.Expr
 	okLens := true
+	type readLen struct {
+		buf     ast.Expr
+		isConst bool
+		k       int64
+		term    ast.Expr
+	}
+	var lens []readLen
 	for k, rd := range reads {
 		c := fmt.Sprintf("read@block-reader #%d", k+1)
 		if rd.buf == nil {
@@ -112,13 +180,13 @@ func c09B1(r *core.R) {
 		} else if bo := objOf(info, rd.buf); bo != nil {
 			// last re-slice `b = b[:n]` before the read, in the block reader
 			var hi ast.Expr
-			ast.Inspect(br.Decl.Body, func(n ast.Node) bool {
+			ast.Inspect(acct.Decl.Body, func(n ast.Node) bool {
 				as, ok := n.(*ast.AssignStmt)
 				if !ok || len(as.Lhs) != 1 || len(as.Rhs) != 1 || objOf(info, as.Lhs[0]) != bo || as.Pos() > rd.pos {
 					return true
 				}
-				if se, ok := ast.Unparen(as.Rhs[0]).(*ast.SliceExpr); ok && objOf(info, se.X) == bo && se.Low == nil && se.High != nil {
-					hi = se.High
+				if se, ok := ast.Unparen(as.Rhs[0]).(*ast.SliceExpr); ok && se.Low == nil && se.High != nil {
+					hi = se.High // `b = b[:n]`, `b := bufs.header[:n]`
 				} else {
 					hi = nil
 				}
@@ -140,23 +208,26 @@ func c09B1(r *core.R) {
 		} else {
 			okLens = false
 		}
+		// what `len(buf)` of this read stands for (the increment may be written as a sum of len() of the buffers)
+		{
+			rl := readLen{buf: rd.buf}
+			if nT := len(wantTerms); nT > 0 && lenDesc == src(r.P.Fset, wantTerms[nT-1]) {
+				rl.term = wantTerms[nT-1]
+			} else if lenDesc != "" {
+				rl.isConst = true
+				if se, ok := ast.Unparen(rd.buf).(*ast.SliceExpr); ok && se.High != nil {
+					rl.k, _ = constInt(info, se.High)
+				} else {
+					rl.k, _ = c09MakeLen(m, rd.buf, map[types.Object]bool{})
+				}
+			}
+			lens = append(lens, rl)
+		}
 		if lenDesc != "" {
 			r.OK(c, rd.call.Pos(), "io.ReadFull consumes exactly len(%s) = %s bytes on success", src(r.P.Fset, rd.buf), lenDesc)
 		} else {
 			r.Unknown(c, rd.call.Pos(), "the length of buffer `%s` at this read could not be derived (neither a re-slice in %s nor a make with a constant length)", src(r.P.Fset, rd.buf), br.Name())
 		}
-	}
-	// the increment
-	c := "increment@block-reader " + f.counter.Name()
-	var inc *ast.AssignStmt
-	for _, as := range f.incs {
-		if as.Tok == token.ADD_ASSIGN && m.funcAt(as.Pos()) == br && len(as.Lhs) == 1 {
-			inc = as
-		}
-	}
-	if inc == nil || len(f.incs) != 1 {
-		r.Bad(c, br.Decl.Pos(), "the byte counter %s is written at %d sites; exactly one `+=` in the block reader is required", f.counter.Name(), len(f.incs))
-		return
 	}
 	if !okLens || len(reads) < 2 {
 		r.Unknown(c, inc.Pos(), "could not derive the length of every buffer read for a block (%d reads found)", len(reads))
@@ -166,6 +237,7 @@ func c09B1(r *core.R) {
 	var gotConst int64
 	var gotTerms []ast.Expr
 	var split func(e ast.Expr) bool
+	splitDepth := 0
 	split = func(e ast.Expr) bool {
 		e = stripConv(info, e)
 		if v, ok := constInt(info, e); ok {
@@ -178,10 +250,44 @@ func c09B1(r *core.R) {
 			}
 			return split(be.X) && split(be.Y)
 		}
+		// len(buf) of a buffer that was read: the length that read consumed
+		if call, ok := e.(*ast.CallExpr); ok && builtinName(info, call) == "len" && len(call.Args) == 1 {
+			for _, rl := range lens {
+				if rl.buf != nil && sameExpr(info, call.Args[0], rl.buf) {
+					if rl.isConst {
+						gotConst += rl.k
+					} else if rl.term != nil {
+						gotTerms = append(gotTerms, rl.term)
+					} else {
+						return false
+					}
+					return true
+				}
+			}
+		}
+		// the sum kept in a field of a result struct / in a local with one definition
+		if splitDepth < 4 {
+			if base, fld := m.structLocalField(e); base != nil {
+				if inits, ok := m.fieldInits(base, 0, fld, map[types.Object]bool{}, 0); ok && len(inits) == 1 {
+					splitDepth++
+					defer func() { splitDepth-- }()
+					return split(inits[0])
+				}
+			}
+			if o, ok := objOf(info, e).(*types.Var); ok && !o.IsField() {
+				if defs := m.defsOf(o); len(defs) == 1 && defs[0].kind == "assign" {
+					if _, isBin := stripConv(info, defs[0].e).(*ast.BinaryExpr); isBin {
+						splitDepth++
+						defer func() { splitDepth-- }()
+						return split(defs[0].e)
+					}
+				}
+			}
+		}
 		gotTerms = append(gotTerms, e)
 		return true
 	}
-	if !split(inc.Rhs[0]) {
+	if !split(sumExpr) {
 		r.Unknown(c, inc.Pos(), "increment `%s` is not a sum", src(r.P.Fset, inc))
 		return
 	}
@@ -216,16 +322,16 @@ func c09B1(r *core.R) {
 	const incBit = 1 << 8
 	early, noInc, incOnFail := token.NoPos, token.NoPos, token.NoPos
 	t := m.newTracer()
-	t.inlineOnly(m, func(u *unit) bool { return m.unitCalls(u, "io", "ReadFull") })
+	t.inlineOnly(m, func(u *unit) bool { return m.unitReadsInput(u) })
 	t.Event = func(st int, ev *pbfEvent) int {
 		switch ev.kind {
 		case "call":
-			if isPkgFunc(callee(info, ev.n.(*ast.CallExpr)), "io", "ReadFull") && st&0xff < 0xff {
+			if _, isFull := pbfFullRead(info, ev.n.(*ast.CallExpr)); isFull && st&0xff < 0xff {
 				return st + 1
 			}
 		case "node":
 			if ev.n == ast.Node(inc) {
-				if st&0xff < total {
+				if st&0xff < total && acct == br {
 					early = inc.Pos()
 				}
 				return st | incBit
@@ -250,6 +356,31 @@ func c09B1(r *core.R) {
 		return st
 	}
 	t.Run(br, br.Decl.Body, 0)
+	if acct != br {
+		// the length is added up by a helper: there, the sum is only returned after all the reads were made (a
+		// failed read leaves through a return of the constant 0), and the block reader adds what the helper returned
+		ta := m.newTracer()
+		ta.inlineOnly(m, func(u *unit) bool { return m.unitReadsInput(u) })
+		ta.Event = func(st int, ev *pbfEvent) int {
+			switch ev.kind {
+			case "call":
+				if _, isFull := pbfFullRead(info, ev.n.(*ast.CallExpr)); isFull && st < 0xff {
+					return st + 1
+				}
+			case "return":
+				if ret, _ := ev.n.(*ast.ReturnStmt); ret != nil && ev.depth == 0 {
+					for _, res := range ret.Results {
+						if res == sumExpr && st < total {
+							early = ret.Pos()
+						}
+					}
+				}
+			}
+			return st
+		}
+		ta.Run(acct, acct.Decl.Body, 0)
+		t.incomplete = append(t.incomplete, ta.incomplete...)
+	}
 	var want []string
 	for _, wt := range wantTerms {
 		want = append(want, src(r.P.Fset, wt))
